@@ -460,6 +460,9 @@ func (e *Env) applyBucketOp(op Op) *Violation {
 			return Violf("Bucket(%s).Sequence() = %d, model %d", op, got.Sequence(), mb.Sub[ks].Seq)
 		}
 	case OpCursor:
+		if writable && !isRoot {
+			return RunCursorMut(h.cursor(), h.b, mb, op.Cur, e)
+		}
 		return RunCursor(h.cursor(), mb, op.Cur, e)
 	case OpBulkPut:
 		if isRoot || !writable {
@@ -539,16 +542,66 @@ func itoa(i int) string {
 
 // RunCursor executes cursor calls on c and on a sorted list with a position.
 func RunCursor(c *bolt.Cursor, mb *model.Bucket, calls []CurCall, e *Env) *Violation {
+	return RunCursorMut(c, nil, mb, calls, e)
+}
+
+// RunCursorMut is RunCursor for a cursor that stays in use across mutations of its bucket b (nil: the calls
+// put/del/cdel are skipped). After a mutation the cursor is unpositioned until First/Last/Seek is called - as the
+// Cursor documentation requires - and those calls must then reflect the mutation.
+func RunCursorMut(c *bolt.Cursor, b *bolt.Bucket, mb *model.Bucket, calls []CurCall, e *Env) *Violation {
 	names := mb.Names()
 	n := len(names)
 	pos := -1      // index of the current key
 	atEnd := false // positioned past the last key (after a Seek that found nothing)
 	positioned := false
 	dirChanges, lastDir := 0, 0
+	lastRet := -1 // index of the key the previous call returned (-1: it returned nil or was a mutation)
 	for ci, call := range calls {
 		var k, v []byte
 		want := -1 // index expected, -1 = nil
 		switch call.C {
+		case "put", "del", "cdel":
+			if b == nil {
+				continue
+			}
+			switch call.C {
+			case "put":
+				key := call.K.Bytes()
+				if len(key) == 0 || len(key) > MaxKeySize || mb.Has(string(key)) == 2 {
+					continue
+				}
+				val := call.V.Bytes()
+				if err := b.Put(key, val); err != nil {
+					return Violf("cursor program call #%d: Put(%q): %v", ci, key, err)
+				}
+				mb.Keys[string(key)] = append([]byte{}, val...)
+			case "del":
+				key := call.K.Bytes()
+				if len(key) == 0 || mb.Has(string(key)) == 2 {
+					continue
+				}
+				if err := b.Delete(key); err != nil {
+					return Violf("cursor program call #%d: Delete(%q): %v", ci, key, err)
+				}
+				delete(mb.Keys, string(key))
+			case "cdel":
+				// only directly after a call that returned a key: that key is what Cursor.Delete removes
+				if lastRet < 0 || lastRet >= n || mb.Has(names[lastRet]) != 1 {
+					continue
+				}
+				if err := c.Delete(); err != nil {
+					return Violf("cursor program call #%d: Cursor.Delete at %q: %v", ci, names[lastRet], err)
+				}
+				delete(mb.Keys, names[lastRet])
+			}
+			lastRet = -1
+			if e != nil {
+				e.Label("cursor-reused-across-mutation")
+			}
+			names = mb.Names()
+			n = len(names)
+			positioned, atEnd, pos = false, false, -1
+			continue
 		case "first":
 			k, v = c.First()
 			positioned, atEnd = true, false
@@ -612,6 +665,7 @@ func RunCursor(c *bolt.Cursor, mb *model.Bucket, calls []CurCall, e *Env) *Viola
 				want = pos
 			}
 		}
+		lastRet = want
 		if want == -1 {
 			if k != nil {
 				return Violf("cursor call #%d %s%v returned key %q, sorted-list model returns nil (names=%d)", ci, call.C, keyOf(call), k, n)
